@@ -102,7 +102,19 @@ impl<C: BlsSignatureImpl> PublicKey<C> {
             SignatureSchemes::MessageAugmentation => <C as BlsSignatureMessageAugmentation>::DST,
             SignatureSchemes::ProofOfPossession => <C as BlsSignaturePop>::SIG_DST,
         };
-        let (u, v, w) = <C as BlsTimeCrypt>::seal(self.0, msg.as_ref(), id.as_ref(), dst)?;
+        let (u, v, w) = match scheme {
+            // a message augmentation signature is over `public key || id`,
+            // so the identifier that is hashed must carry the same prefix
+            SignatureSchemes::MessageAugmentation => {
+                let mut aug_id = <C as BlsSignatureMessageAugmentation>::pk_bytes(
+                    self.0,
+                    id.as_ref().len(),
+                );
+                aug_id.extend_from_slice(id.as_ref());
+                <C as BlsTimeCrypt>::seal(self.0, msg.as_ref(), aug_id.as_slice(), dst)?
+            }
+            _ => <C as BlsTimeCrypt>::seal(self.0, msg.as_ref(), id.as_ref(), dst)?,
+        };
         Ok(TimeCryptCiphertext { u, v, w, scheme })
     }
 
